@@ -764,6 +764,13 @@ XProg(v) ==
             <<XInj("Inject", <<Par("_", "T2")>>, "T1", <<ItS(1), ItL(2)>>, 1), XInj("InjectUnnamed", <<Par("", "T2")>>, "T1", <<ItS(1), ItL(2)>>, 1)>>)
     [] v = "embed-in-injector-file" ->          \* the injector file has a blank import its copied declarations need; nothing else is imported
          mk(<<XF("P3", <<>>, "T3")>>, <<>>, <<XInj("Inject", <<>>, "T3", <<ItL(1)>>, 1)>>) @@ [opts |-> [embeddecl |-> TRUE]]
+    [] v = "same-name-packages-poorer-set" ->   \* two packages with one name, each with a set Set; the second one lacks what the first provides
+         mk(<<FuncIn("NewB", "b", <<>>, "U1", FALSE, FALSE), FuncIn("NewB2", "b", <<>>, "U2", FALSE, FALSE), FuncIn("NewC", "c", <<>>, "V1", FALSE, FALSE),
+              XF("P1", <<"U1", "U2">>, "T1"), XF("P9", <<"V1", "U2">>, "T9")>>,
+            <<SetD("SetB", "b", <<ItL(1), ItL(2)>>), SetD("SetC", "c", <<ItL(3)>>)>>,
+            <<XInj("InjectB", <<>>, "T1", <<ItS(1), ItL(4)>>, 1), XInj("InjectC", <<>>, "T9", <<ItS(2), ItL(5)>>, 1)>>)
+         @@ [naming |-> [x \in {"pkg:b", "pkg:c", "alias:b", "alias:c", "SetB", "SetC"} |->
+                          CASE x \in {"pkg:b", "pkg:c"} -> "store" [] x = "alias:b" -> "bstore" [] x = "alias:c" -> "cstore" [] OTHER -> "Set"]]
     [] v = "same-set-twice-direct" ->          \* one set listed twice in the same call
          mk(<<XF("P2", <<>>, "T2"), XF("P1", <<"T2">>, "T1")>>, <<SetD("SetA", "a", <<ItL(1)>>)>>,
             <<XInj("Inject", <<>>, "T1", <<ItS(1), ItL(2), ItS(1)>>, 1)>>)
@@ -784,7 +791,7 @@ XVariants == {"star-foreign-tag-missing", "star-foreign-tag-ok", "two-files-firs
               "embedded-fields-struct", "embedded-fields-fieldsof", "same-text-values-two-packages",
               "sets-in-injector-file", "same-provider-twice-direct", "same-provider-twice-in-set",
               "cycle-through-pointer-types", "cycle-behind-bound-interface", "bind-to-field-type", "variadic-dup-param", "arg-returned-directly-full-sig",
-              "struct-both-forms-plus-superfluous", "same-name-packages-one-unused", "blank-param-conflicts-with-set", "embed-in-injector-file"}
+              "struct-both-forms-plus-superfluous", "same-name-packages-one-unused", "blank-param-conflicts-with-set", "embed-in-injector-file", "same-name-packages-poorer-set"}
 FamilyX(p, vs) == \E v \in vs : p = XProg(v)
 
 (* ======================================================================== *)
